@@ -21,3 +21,13 @@ package stringset
 //@   loop 0 invariant members: forall x string :: x in c <==> seen0(x)
 //@   loop 0 invariant count: len(c) == nseen0
 //@   loop 0 invariant fresh_c: fresh(c) && c != s
+
+// Equal: true only for sets with the same elements. The loop proves s1 is contained in s2 and the
+// lengths agree; that s2 is then contained in s1 as well is the finite-set cardinality fact
+// (a subset of equal size is the whole set), which the solvers cannot derive: it is an assumed lemma.
+//@ func Equal
+//@   ensures sub: result ==> (forall x string :: (x in s1) ==> (x in s2))
+//@   ensures size: result ==> len(s1) == len(s2)
+//@   ensures differ: !result ==> len(s1) != len(s2) || (exists x string :: (x in s1) && !(x in s2))
+//@   lemma sup: result ==> (forall x string :: (x in s2) ==> (x in s1))
+//@   loop 0 invariant seen_in: forall x string :: seen0(x) ==> (x in s2)
